@@ -48,7 +48,7 @@ def cancel_variants(make, victims=None, styles=("scope", "native")):
     """One execution per (loop step k, caller, style): the caller is cancelled right before
     loop step k of the default schedule."""
     base = baseline(make)
-    nsteps = base.loop.steps
+    nsteps = base.pos
     names = victims or base.order
     base.finish()
     for k in range(nsteps + 1):
@@ -132,3 +132,43 @@ def dfs_orders(make, depth=12, max_runs=2000, kinds=("op", "gate", "start", "tic
         run.run(decide)
         runs += 1
         yield ("dfs", tuple(choice_log)), run
+
+
+def late_decide(who, at_pos, fault=None):
+    """Default schedule, except that caller `who` arrives only once the position counter has
+    reached `at_pos`, and (optionally) operation number fault[0] fails with fault[1]."""
+
+    def decide(r, en):
+        en2 = [s for s in en if not (s[0] == "start" and s[1] == who and r.pos < at_pos)]
+        # arrivals are in order: withholding `who` also withholds later ones
+        st = default_decide(r, en2)
+        if st is None and len(en2) != len(en):
+            st = default_decide(r, en)  # nothing else can happen: let it arrive now
+        if st is not None and fault and st[0] == "op" and st[1] == fault[0]:
+            return ("op", st[1], fault[1])
+        return st
+
+    return decide
+
+
+def arrival_variants(make, who=None, with_faults=False, kinds=FAULTS_BY_KIND, stride=1):
+    """The last caller (or `who`) arrives at every position of the schedule; optionally each
+    combined with one fault on an earlier operation."""
+    base = baseline(make)
+    who = who or base.order[-1]
+    npos = base.pos
+    ops = [(op.seq, op.kind) for op in base.net.ops if op.kind in kinds and op.state == "done"]
+    base.finish()
+    for p in range(0, npos + 1, stride):
+        run = make()
+        run.run(late_decide(who, p))
+        yield ("late", who, p), run
+        if with_faults:
+            for seq, kind in ops:
+                f = kinds[kind][0]
+                run = make()
+                run.run(late_decide(who, p, (seq, f)))
+                if any(e["ev"] == "Fault" for e in run.events):
+                    yield ("late+fault", who, p, seq, f), run
+                else:
+                    run.finish()
